@@ -111,6 +111,8 @@ IMPL = {
 
 
 def model_call(c):
+    if c["op"].startswith("cli_"):
+        return _model_call_cli(c)
     if c["op"] == "to_seed_default":
         return "c10_to_seed", [c["args"][0], ""]
     if c["op"] == "load_wordlist":
@@ -291,6 +293,7 @@ def gen_cases(rng, tier):
         m = _phrase(rng.randbytes(rng.choice(ENT_LENGTHS)))
         p = "".join(rng.choice(SEED_ALPHABET) for _ in range(rng.randrange(0, 12)))
         out.append(case("seed-random", "to_seed", m, p))
+    out.extend(gen_cli_cases(rng, tier))
     return out
 
 
@@ -325,6 +328,8 @@ def _try(f, *a):
 def prop_oracle(c):
     m = _impl()
     op = c["op"]
+    if op.startswith("cli_"):
+        return _cli_prop_oracle(c)
     if op == "load_wordlist":
         got = m.load_wordlist()
         if got != _ref_words():
@@ -373,6 +378,312 @@ def prop_oracle(c):
             return "to_seed raised %s" % r[1]
         if bytes(r[1]) != want:
             return "seed is not PBKDF2-HMAC-SHA512(NFKD(mnemonic), 'mnemonic'+NFKD(passphrase), 2048, 64): expected %s" % want.hex()
+        return None
+    return "unknown op"
+
+
+# ----------------------------------------------------------------------------------------------
+# the command line entry point `bits mnemonic` must agree with the library / the model
+#   cli_from_entropy(entropy, fin, via)            == calculate_mnemonic_phrase(entropy)          (model op)
+#   cli_to_entropy(text, fout, via)                == to_entropy(text)                            (model op)
+#   cli_to_seed(text, passphrase, fout)            == to_seed(" ".join(text.split()), passphrase) (model op; the
+#                                                     command documents that it collapses white space between words)
+#   cli_to_master_key(text, passphrase, net, prt)  == BIP32 master key of that seed: the MODEL's seed, serialised by an
+#                                                     independent BIP32 routine below (no model op for the key itself);
+#                                                     prop_oracle also compares with the library composition in the worker
+#   cli_generate(strength, tag)                    == calculate_mnemonic_phrase(stubbed secrets.token_bytes output)
+# fin / fout: None = option absent (hex), "" = bare -1 / -0 (raw), else the word given ("raw","hex","x","bin","b").
+# A refusal (an "ERROR..." return value, a non-zero exit, an escaped exception) is re-raised as the exception class
+# the command swallowed; a refusal that nevertheless wrote to stdout is returned as a value so that it can never
+# agree with the model's Err.
+# ----------------------------------------------------------------------------------------------
+_FMT = {None: "hex", "": "raw", "raw": "raw", "hex": "hex", "x": "hex", "bin": "bin", "b": "bin"}
+_B58 = "123456789ABCDEFGHJKLMNPQRSTUVWXYZabcdefghijkmnopqrstuvwxyz"
+_N = 0xFFFFFFFFFFFFFFFFFFFFFFFFFFFFFFFEBAAEDCE6AF48A03BBFD25E8CD0364141
+
+
+def _fmt_args(flag, f):
+    return [] if f is None else ([flag] if f == "" else [flag, f])
+
+
+def _encode_in(data: bytes, fmt: str) -> bytes:
+    if fmt == "raw":
+        return data
+    if fmt == "hex":
+        return (data.hex() + "\n").encode()
+    return ("".join(format(b, "08b") for b in data) + "\n").encode()
+
+
+def _decode_out(out: bytes, fmt: str):
+    """stdout of write_bytes -> bytes; anything malformed is returned as a marker tuple (never equal to a value)"""
+    if fmt == "raw":
+        return out
+    t = out.decode("utf-8", "replace")
+    if not t.endswith("\n"):
+        return ("malformed output", out)
+    t = t[:-1]
+    try:
+        if fmt == "hex":
+            return bytes.fromhex(t) if t == t.strip() else ("malformed output", out)
+        if set(t) - set("01") or len(t) % 8:
+            return ("malformed output", out)
+        return int(t, 2).to_bytes(len(t) // 8, "big") if t else b""
+    except ValueError:
+        return ("malformed output", out)
+
+
+def _refusal(r):
+    refused = isinstance(r["rc"], str) or r["exc"] is not None or r["rc"] not in (None, 0)
+    if not refused:
+        return
+    if r["out"]:
+        return ("refused but wrote to stdout", r["rc"], bytes(r["out"]))
+    import builtins
+    k = getattr(builtins, str(r["exc"]), None)
+    if isinstance(k, type) and issubclass(k, Exception):
+        raise k(str(r["rc"]))
+    raise RuntimeError("%s: %s" % (r["exc"], r["rc"]))
+
+
+def _run_cli(argv, data: bytes, via="stdin", getpass=None, stubs=None, out_file=False):
+    """runs `bits mnemonic <argv>`; via="file": the input comes through -i FILE; out_file: output through -o FILE"""
+    import cli
+    import tempfile
+    paths = []
+    try:
+        argv = ["mnemonic"] + list(argv)
+        if via == "file":
+            fd, path = tempfile.mkstemp(prefix="c10in_", dir=os.getcwd())
+            os.write(fd, data)
+            os.close(fd)
+            paths.append(path)
+            argv += ["-i", path]
+            data = b"this is stdin and must not be read"
+        if out_file:
+            fd, opath = tempfile.mkstemp(prefix="c10out_", dir=os.getcwd())
+            os.close(fd)
+            paths.append(opath)
+            argv += ["-o", opath]
+        r = cli.run_main(argv, stdin=data, getpass=getpass, stubs=stubs)
+        if out_file:
+            r["out"] = bytes(r["out"]) + open(opath, "rb").read()
+        return r
+    finally:
+        for q in paths:
+            try:
+                os.remove(q)
+            except OSError:
+                pass
+
+
+def _cli_from_entropy(entropy, fin, via):
+    r = _run_cli(["--from-entropy"] + _fmt_args("-1", fin), _encode_in(entropy, _FMT[fin]), via=via.split("+")[0],
+                 out_file=via.endswith("+out"))
+    bad = _refusal(r)
+    if bad:
+        return bad
+    t = r["out"].decode("utf-8", "replace")
+    return t[:-1] if t.endswith("\n") else ("malformed output", bytes(r["out"]))
+
+
+def _cli_to_entropy(text, fout, via):
+    r = _run_cli(["--to-entropy"] + _fmt_args("-0", fout), text.encode("utf-8"), via=via.split("+")[0],
+                 out_file=via.endswith("+out"))
+    return _refusal(r) or _decode_out(r["out"], _FMT[fout])
+
+
+def _cli_to_seed(text, passphrase, fout):
+    r = _run_cli(["--to-seed"] + _fmt_args("-0", fout), text.encode("utf-8"), getpass=passphrase)
+    return _refusal(r) or _decode_out(r["out"], _FMT[fout])
+
+
+def _cli_to_master_key(text, passphrase, network, print_):
+    argv = ["--to-master-key"] + ([] if network is None else ["-N", network]) + (["-P"] if print_ else [])
+    r = _run_cli(argv, text.encode("utf-8"), getpass=passphrase)
+    return _refusal(r) or bytes(r["out"])
+
+
+def _stub_entropy(tag: bytes, n: int) -> bytes:
+    return hashlib.shake_256(b"C10 cli_generate" + tag).digest(n) if n > 0 else b""
+
+
+def _cli_generate(strength, tag):
+    calls = []
+
+    def token_bytes(nbytes=None):
+        calls.append(nbytes)
+        return _stub_entropy(tag, 32 if nbytes is None else nbytes)
+    r = _run_cli([] if strength is None else ["-S", str(strength)], b"", stubs={"secrets.token_bytes": token_bytes})
+    bad = _refusal(r)
+    if bad:
+        return bad
+    if len(calls) != 1:
+        return ("secrets.token_bytes called %d times" % len(calls), bytes(r["out"]))
+    t = r["out"].decode("utf-8", "replace")
+    return t[:-1] if t.endswith("\n") else ("malformed output", bytes(r["out"]))
+
+
+IMPL.update({
+    "cli_from_entropy": _cli_from_entropy,
+    "cli_to_entropy": _cli_to_entropy,
+    "cli_to_seed": _cli_to_seed,
+    "cli_to_master_key": _cli_to_master_key,
+    "cli_generate": _cli_generate,
+})
+
+
+def _sanitised(text):
+    return " ".join(text.split())
+
+
+def _model_call_cli(c):
+    op, a = c["op"], c["args"]
+    if op == "cli_from_entropy":
+        return "c10_calculate_mnemonic_phrase", [a[0]]
+    if op == "cli_to_entropy":
+        return "c10_to_entropy", [a[0]]
+    if op in ("cli_to_seed", "cli_to_master_key"):
+        return "c10_to_seed", [_sanitised(a[0]), a[1]]
+    if op == "cli_generate":
+        strength = 256 if a[0] is None else a[0]
+        return "c10_calculate_mnemonic_phrase", [_stub_entropy(a[1], strength // 8 if strength % 8 == 0 else 0)]
+    return None
+
+
+def _b58check(payload: bytes) -> bytes:
+    data = payload + hashlib.sha256(hashlib.sha256(payload).digest()).digest()[:4]
+    n = int.from_bytes(data, "big")
+    out = ""
+    while n:
+        n, r = divmod(n, 58)
+        out = _B58[r] + out
+    return ("1" * (len(data) - len(data.lstrip(b"\0"))) + out).encode()
+
+
+def ref_master_xprv(seed: bytes, network, print_) -> bytes:
+    """BIP32 master key generation + serialisation (independent of bits.bips.bip32)"""
+    I = hmac.new(b"Bitcoin seed", seed, hashlib.sha512).digest()
+    k = int.from_bytes(I[:32], "big")
+    if k == 0 or k >= _N:
+        raise ValueError("invalid master key")
+    version = bytes.fromhex("0488ade4" if network in (None, "mainnet") else "04358394")
+    x = _b58check(version + b"\0" + b"\0\0\0\0" + b"\0\0\0\0" + I[32:] + b"\0" + I[:32])
+    return x + (os.linesep.encode() if print_ else b"")
+
+
+def canon(c, v):
+    # the model answers cli_to_master_key with the SEED; the expected key is derived from it here
+    if c["op"] == "cli_to_master_key" and isinstance(v, (bytes, bytearray)) and len(v) == 64:
+        return ref_master_xprv(bytes(v), c["args"][2], c["args"][3])
+    return v
+
+
+CLI_PASSPHRASES = ["", " ", "   ", "\t", "TREZOR", " TREZOR", "TREZOR ", " TREZOR ", "TREZOR\n", "TREZOR\r", "\rTREZOR",
+                   "correct horse  battery staple", " a  b ", "\u00a0x\u00a0", "\u3000", "x\u3000", "\u2003pass\u2003",
+                   "\uff50\uff41\uff53\uff53", "e\u0301", "\u00e9 ", " \u01c6", "\u0301abc", "\x1fq\x1f", "\u0085z"]
+
+
+def gen_cli_cases(rng, tier):
+    T = tier == "thorough"
+    W = _ref_words()
+    out = []
+    fins = [None, "", "raw", "hex", "x", "bin", "b"]
+    # --from-entropy: every input format x every valid size; refusals for bad sizes; file input / file output
+    for L in ENT_LENGTHS:
+        for fin in (fins if (T or L in (16, 32)) else [None, ""]):
+            out.append(case("cli-from-entropy", "cli_from_entropy", rng.randbytes(L), fin, "stdin"))
+        out.append(case("cli-from-entropy", "cli_from_entropy", bytes(L), None, "stdin"))
+    out.append(case("cli-from-entropy-file", "cli_from_entropy", rng.randbytes(16), "", "file"))
+    out.append(case("cli-from-entropy-file", "cli_from_entropy", rng.randbytes(32), "hex", "file+out"))
+    out.append(case("cli-from-entropy-file", "cli_from_entropy", rng.randbytes(24), "b", "stdin+out"))
+    for L in ([0, 1, 15, 17, 31, 33, 64] if not T else [l for l in range(0, 41) if l not in ENT_LENGTHS]):
+        out.append(case("cli-from-entropy-refused", "cli_from_entropy", rng.randbytes(L), rng.choice(fins), "stdin"))
+    out.append(case("cli-from-entropy-refused", "cli_from_entropy", rng.randbytes(12), "", "file+out"))
+    # --to-entropy: every output format; refusals (wrong checksum / unknown word / wrong count) must write nothing
+    for L in ENT_LENGTHS:
+        ws = ref_mnemonic(rng.randbytes(L))
+        for fout in (fins if (T or L in (16, 32)) else [None, ""]):
+            text = rng.choice([" ", "  ", "\n", "\t", "\u3000"]).join(ws) + rng.choice(["", "\n", " \n", "\r\n"])
+            out.append(case("cli-to-entropy", "cli_to_entropy", text, fout, "stdin"))
+        bad_cs = ws[:-1] + [W[(W.index(ws[-1]) + 1) % 2048]]
+        out.append(case("cli-to-entropy-refused", "cli_to_entropy", " ".join(bad_cs) + "\n", rng.choice(fins), "stdin"))
+        out.append(case("cli-to-entropy-refused", "cli_to_entropy", " ".join(ws[:-1] + ["zzzz"]) + "\n", rng.choice(fins), "stdin"))
+        out.append(case("cli-to-entropy-refused", "cli_to_entropy", " ".join(ws[:-1]) + "\n", rng.choice(fins), "stdin"))
+    ws = ref_mnemonic(rng.randbytes(16))
+    out.append(case("cli-to-entropy-file", "cli_to_entropy", " ".join(ws) + "\n", "", "file"))
+    out.append(case("cli-to-entropy-file", "cli_to_entropy", " ".join(ws), "hex", "file+out"))
+    out.append(case("cli-to-entropy-file", "cli_to_entropy", " ".join(ws[:-1] + ["zoo"]), "", "stdin+out"))
+    out.append(case("cli-to-entropy-refused", "cli_to_entropy", "", None, "stdin"))
+    # --to-seed / --to-master-key: the passphrase exactly as getpass returns it
+    phrases = [" ".join(ref_mnemonic(bytes(16))), " ".join(ref_mnemonic(rng.randbytes(32)))]
+    pps = CLI_PASSPHRASES if T else CLI_PASSPHRASES[:8] + rng.sample(CLI_PASSPHRASES[8:], 8)
+    for i, p in enumerate(pps):
+        m = phrases[i % 2]
+        out.append(case("cli-to-seed-passphrase", "cli_to_seed", m + "\n", p, fins[i % len(fins)]))
+        out.append(case("cli-to-master-key-passphrase", "cli_to_master_key", m + "\n", p,
+                        [None, "mainnet", "testnet", "regtest"][i % 4], bool(i % 3 == 0)))
+    for fout in fins:
+        out.append(case("cli-to-seed-format", "cli_to_seed", phrases[1], " TREZOR ", fout))
+    for m in ["  " + phrases[0].replace(" ", "  ") + " \n", phrases[0].replace(" ", "\u3000"), "", "not a mnemonic\n",
+              "\uff41bandon about", "e\u0301  \u00e9\n"]:
+        out.append(case("cli-to-seed-mnemonic", "cli_to_seed", m, "TREZOR", ""))
+        out.append(case("cli-to-master-key-mnemonic", "cli_to_master_key", m, " p ", None, False))
+    for (eh, phrase, seedh) in trezor_vectors()[: (24 if T else 3)]:
+        out.append(case("cli-trezor", "cli_to_seed", phrase + "\n", "TREZOR", None))
+        out.append(case("cli-trezor", "cli_to_master_key", phrase + "\n", "TREZOR", None, False))
+    # generation: every --strength, the default, refused strengths
+    for i, S in enumerate([None, 128, 160, 192, 224, 256] * (4 if T else 1)):
+        out.append(case("cli-generate", "cli_generate", S, rng.randbytes(8)))
+    for S in [0, 8, 96, 127, 129, 512, -128]:
+        out.append(case("cli-generate-refused", "cli_generate", S, rng.randbytes(8)))
+    return out
+
+
+def _cli_prop_oracle(c):
+    """the literal property through the command line (independent reference; for the master key also the library
+    composition evaluated in this same worker)"""
+    op, a = c["op"], c["args"]
+    r = _try(IMPL[op], *a)
+    got = r[1] if r[0] == "ok" else None
+    if r[0] == "ok" and isinstance(got, tuple):
+        return "command line: %s" % (got,)
+    if op == "cli_from_entropy" or op == "cli_generate":
+        if op == "cli_generate":
+            S = 256 if a[0] is None else a[0]
+            e = _stub_entropy(a[1], S // 8) if S in (128, 160, 192, 224, 256) else None
+            want = ref_mnemonic(e) if e is not None else None
+        else:
+            want = ref_mnemonic(a[0])
+        if want is None:
+            return None if got is None else "`bits mnemonic` does not refuse an invalid entropy size (printed %r)" % got
+        if got != " ".join(want):
+            return "`bits mnemonic` printed %r, BIP39 gives %r" % (got if got is not None else r, " ".join(want))
+        return None
+    if op == "cli_to_entropy":
+        want = ref_decode(a[0].split())
+        if want is None:
+            return None if got is None else "`bits mnemonic --to-entropy` accepts an invalid sentence (wrote %r)" % (got,)
+        if got != want:
+            return "`bits mnemonic --to-entropy` gave %r, the entropy is %s" % (got if got is not None else r, want.hex())
+        return None
+    m = _impl()
+    want_seed = ref_seed(_sanitised(a[0]), a[1])
+    if op == "cli_to_seed":
+        if got != want_seed:
+            return "`bits mnemonic --to-seed` with passphrase %r gave %s, PBKDF2(NFKD(mnemonic), 'mnemonic'+NFKD(passphrase)) " \
+                   "is %s" % (a[1], got.hex() if isinstance(got, bytes) else r, want_seed.hex())
+        return None
+    if op == "cli_to_master_key":
+        import bits.bips.bip32 as bip32
+        lib_seed = m.to_seed(_sanitised(a[0]), passphrase=a[1])
+        key, cc = bip32.to_master_key(lib_seed)
+        lib = bip32.root_serialized_extended_key(key, cc, testnet=a[2] not in (None, "mainnet")) + \
+            (os.linesep.encode() if a[3] else b"")
+        if got != lib:
+            return "`bits mnemonic --to-master-key` with passphrase %r gave %r, the library composition " \
+                   "root_serialized_extended_key(to_master_key(to_seed(mnemonic, passphrase))) gives %r" % (a[1], got if got is not None else r, lib)
+        if got != ref_master_xprv(want_seed, a[2], a[3]):
+            return "master key is not the BIP32 master key of the BIP39 seed"
         return None
     return "unknown op"
 
